@@ -1,5 +1,5 @@
 SPECIFICATION TSpec
-CONSTANTS Conns = {c1, c2, c3}  MaxReq = 3  Closers = {g1}  NoReportAfterTunnel = FALSE  ReportTwiceOnConnect = FALSE  NoOnce = FALSE
+CONSTANTS Conns = {c1, c2, c3}  MaxReq = 3  Closers = {g1}  NoReportAfterTunnel = FALSE  ReportTwiceOnConnect = FALSE  NoOnce = FALSE  MitmReportAtHandoff = FALSE
 INVARIANTS ExactlyOnce InFlightConserved TotalCountsRequests ClosedOnce ActiveConserved
 VIEW TVIEW
 CONSTRAINT HWM
